@@ -296,6 +296,16 @@ def _always_returns(stmts):
     return False
 
 
+def _negate(t):
+    if isinstance(t, ast.UnaryOp) and isinstance(t.op, ast.Not):
+        return t.operand
+    if isinstance(t, ast.Compare) and len(t.ops) == 1:
+        inv = {ast.Eq: ast.NotEq, ast.NotEq: ast.Eq, ast.Is: ast.IsNot, ast.IsNot: ast.Is, ast.In: ast.NotIn, ast.NotIn: ast.In}
+        if type(t.ops[0]) in inv:
+            return ast.Compare(left=t.left, ops=[inv[type(t.ops[0])]()], comparators=t.comparators)
+    return ast.UnaryOp(op=ast.Not(), operand=t)
+
+
 def _replace_returns(stmts, make):
     """Tail returns -> statements produced by make(expr|None)."""
     out = []
@@ -306,6 +316,12 @@ def _replace_returns(stmts, make):
             n = copy.copy(st)
             n.body = _replace_returns(st.body, make)
             n.orelse = _replace_returns(st.orelse, make)
+            if not n.body and n.orelse:
+                n.test, n.body, n.orelse = _negate(n.test), n.orelse, []
+            if not n.body and not n.orelse:
+                if not is_pure(n.test):
+                    out.append(ast.Expr(value=n.test))
+                continue
             out.append(n)
         else:
             out.append(st)
